@@ -21,6 +21,7 @@ fn run_case(case: &Sexp) -> String {
     "chain_t" => chain::threads::run_chain(body),
     "hotchain_t" => chain::threads::run_hotchain(body),
     "subject" => subj::run_subject(body),
+    "behavior" => subj::run_behavior(body),
     "op2" => chain::local::run_op2(body),
     "op2_t" => chain::threads::run_op2(body),
     k => panic!("unknown case kind {k}"),
